@@ -54,7 +54,7 @@ def main():
     t0 = time.time()
     violations, lines, undecided = 0, [], []
     # proved part: termination of the backtrack analysis (Verus), when the unit exists
-    units = [("update_backtracks", 30), ("dfa_builders", 16), ("add_re", 14)]
+    units = [("update_backtracks", 30), ("dfa_builders", 16), ("add_re", 14), ("search_table", 1)]
     vres = V.run_units(units) if units else []
     vsum = V.summarize(vres) if vres else None
     for r in vres:
@@ -169,7 +169,10 @@ def main():
                    "whose variables are bound, whose built-ins are known and whose `#` operands are classes, no assert! of the construction fires and every index is in bounds (each arm adds transitions "
                    "only out of `current` and of fresh states; `current` has no outgoing transition when an arm starts), and the states of earlier rules keep their transitions.  ASSUMED: the contracts of "
                    "add_char_transition / add_range_transition(s) (entry-API and closure code), the string-literal arm (trusted helper with add_re's contract), Option::replace, termination of the recursion "
-                   "(exec_allows_no_decreases_clause: bindings are acyclic by construction, which is not proved)"] + ["UNDECIDED: " + u for u in undecided]
+                   "(exec_allows_no_decreases_clause: bindings are acyclic by construction, which is not proved)",
+                   "proved for codegen/search_table.rs (unit search_table, real SearchTableSet::add_table): the same table is never emitted twice (it keeps its name) and a new table gets `<Lexer>_RANGE_TABLE_<n>` with a number "
+                   "no other table of the lexer has - so the generated statics cannot collide within a lexer (between lexers the lexer name differs).  ASSUMED: the identifier construction (format! + syn::Ident::new, "
+                   "outlined) yields a name determined by (lexer name, number); names with different numbers differ; obeys_key_model for Vec<(char, char)>"] + ["UNDECIDED: " + u for u in undecided]
     rc = C.EXIT_VIOLATION if violations else (C.EXIT_UNDECIDED if undecided else C.EXIT_OK)
     for u in undecided:
         C.say("UNDECIDED " + u)
